@@ -90,7 +90,7 @@ def run(tier, seed, replay=None):
         paths, covered = vlib.cover_paths(nodes, edges, inits, max_len=40, seed=seed)
         log("[A] graph %d states / %d edges -> %d cover paths (%d edges covered)" % (len(nodes), len(edges), len(paths), covered))
         rnd = random.Random(seed)
-        plan = [("mem", 2, len(paths) if thorough else 1500), ("file", 2, 400 if thorough else 40)]
+        plan = [("mem", 2, len(paths) if thorough else 1500), ("file", 2, 400 if thorough else 90)]
         replayed = 0
         for backend, capu, count in plan:
             if count >= len(paths):
@@ -114,6 +114,29 @@ def run(tier, seed, replay=None):
                     seen_ctx |= c
                 sel = (first + later)[:count // 3]
                 stats["wake_contexts"] = len(seen_ctx)
+                # another third for behaviours in which the writer laps the ring while unread bytes remain (more written than the
+                # capacity, with a read in between): where offsets wrap and storage is recycled
+                def laps(p):
+                    # replay the positions as the implementation keeps them (both reset when the ring drains): does some write start
+                    # at ring offset 0 while unread bytes remain?
+                    rpos = wpos = 0
+                    for x in (nodes[n]["last"] for n in p[1:]):
+                        if x.get("a") == "WSome":
+                            if wpos > rpos and wpos % capu == 0:
+                                return True
+                            wpos += x.get("n", 0)
+                        elif x.get("a") == "RSome":
+                            rpos += x.get("n", 0)
+                            if rpos == wpos:
+                                rpos = wpos = 0
+                        elif x.get("a") == "RClose":
+                            return False
+                    return False
+                lap = [p for p in rest if laps(p)]
+                rnd.shuffle(lap)
+                sel += lap[:count // 3]
+                stats["lap_paths_%s" % backend] = min(len(lap), count // 3)
+                rest = [p for p in rest if not laps(p)]
                 if len(sel) < count:
                     sel += rnd.sample(rest, min(len(rest), count - len(sel)))
                 stats["wake_paths_%s" % backend] = min(len(wake), count // 3)
